@@ -6,7 +6,9 @@ Usage: keepseeds.py [scratch-dir]          (default /tmp/seeded)"""
 import json, os, shutil, glob, sys
 SCRATCH = sys.argv[1] if len(sys.argv) > 1 else "/tmp/seeded"
 # seeds written in round 2 under other names: scratch name -> (id, property)
-RENAME = {"R2B1": ("C05c", "C05"), "R2B3": ("C15c", "C15"), "R2A2": ("C04c", "C04"), "R2A3": ("C15d", "C15")}
+RENAME = {"R2B1": ("C05c", "C05"), "R2B3": ("C15c", "C15"), "R2A2": ("C04c", "C04"), "R2A3": ("C15d", "C15"),
+          "R3A1": ("C09c", "C09"), "R3A2": ("C15e", "C15"), "R3A3": ("C11c", "C11"), "R3B1": ("C17c", "C17"), "R3B2": ("C05d", "C05"),
+          "R3B3": ("C12c", "C12"), "R3C1": ("C13c", "C13"), "R3C2": ("C13d", "C13"), "R3C3": ("C14c", "C14")}
 NEEDS = {
  "C01a": "is_callable_above_mark rewritten with position() (bottom-most MARK): needs nested MARKs with a callable right above the lower one and OBJ chosen with a bare MARK on top, then fixed-arity pops; ~1 in 1e5 PRNG pickles",
  "C01b": "STACK_GLOBAL guard relaxed whenever an installed mutator reports is_unsafe(): needs protocol 4/5, safe mode, the typeconfusion mutator registered",
@@ -47,6 +49,15 @@ NEEDS = {
  "R2B1": "integer-opcode list of emit_int cached in a process-wide OnceLock: the first protocol to emit an integer fixes it for every later generator: needs two generators of different protocols in one process, the later one older (V5 then V0 gives LONG1/BININT in a protocol-0 pickle)",
  "R2B3": "fuzzer-bytes gen_unit_f64 draws a u32 and divides by u32::MAX: result in [0,1], the gate refuses to fire at rate 1.0 on FF FF FF FF: needs arbitrary mode, a mutator, rate 1.0 and those four gate bytes",
  "R2A2": "EXT4 code run through mutate_int(..).unsigned_abs().max(1): i32::MIN folds to 2^31 which reads back as -2147483648: needs protocol >= 2, EXT enabled, the boundary mutator firing on an EXT4 and picking i32::MIN",
+ "R3A1": "type-confusion gate moved to a new gen_chance(rate) that uses rng.random_bool(rate) in PRNG mode: panics for a NaN rate: needs seeded generate()/--seed, unsafe mutations with Typeconfusion registered, and a NaN rate",
+ "R3A2": "Generator::mutate_string / mutate_bytes return early on an empty payload: at rate 1.0 stringlen never extends an empty payload: needs Stringlen registered and a zero-length draw (1 in 32, or exhausted fuzzer bytes)",
+ "R3A3": "emit_string/emit_bytes draw lengths 0..=255 instead of 0..=31: a doubled/extended payload makes a chosen SHORT_* opcode emit nothing: needs Stringlen firing on a SHORT_* opcode with a drawn length >= 128 (double) or >= 247 (extend)",
+ "R3B1": "process_stack_ops gets a minimum-depth early return listing DICT with 4 (it needs 3): DICT on exactly [MARK,k,v] is emitted but not simulated: ~0.4% of default pickles; fuzzer bytes [6,3,3,8] on protocol 0 range (4,4)",
+ "R3B2": "the empty-stack case of cleanup_for_stop emits EMPTY_TUPLE (protocol 1) instead of NONE: needs protocol 0 and a body that ends on an empty stack (range (0,0): always; default range: not in 1000 seeds)",
+ "R3B3": "EXT1/EXT2/EXT4 arms merged: a uniform 31-bit code with the shortest encoding: EXT1/EXT2 practically dead: needs the EXT opt-in and a reachability check over many seeds",
+ "R3C1": "batch mode re-orders the opcode bounds (min.min(max), max.max(min)): needs --dir with min > max (or a lone --min-opcodes above 300)",
+ "R3C2": "PickleMutator.mutate returns its previous output when data equals the last input (cache ignores max_size and the generator configuration): needs two consecutive mutate calls with the same data and a different max_size or a set_opcode_range in between",
+ "R3C3": "Stack::push sweeps the cycle-release registry once it holds >= 256 handles, keeping only strong_count() > 1: needs >= 256 pushes plus a reference cycle that was already popped or is closed later",
  "R2A3": "fuzzer-mode gen_unit_f64 = bits / u64::MAX, exactly 1.0 for bits >= 0xFFFFFFFFFFFFFC00: needs fuzzer-bytes mode, rate 1.0 and eight gate bytes above that threshold",
 }
 for d in sorted(NEEDS):
